@@ -1,5 +1,6 @@
 import Model.Relay
 import Model.Mx
+import Model.RelaySession
 /-!
 # C11 — a relay reports success only for recipients the next hop accepted
 
@@ -478,5 +479,191 @@ example : attempt {} { rcpts := [.code 250, .code 550], eod := .code 451 } = .ta
 example : attempt { lmtp := true } { rcpts := [.code 250, .code 550, .code 250], eodPer := [.code 250, .code 452] }
     = .table [.ok, .perm, .temp] := by decide
 example : attempt {} { rcpts := [.code 250], eod := .close } = .raised .temp := by decide
+
+/-! ## Every recipient gets an answer (the contract the queue relies on, C01's `CompleteOutcome`) -/
+
+theorem fail_length (own : List (Option Cls)) (e : Cls) (l : List Cls) (h : fail own e = .table l) : l.length = own.length := by
+  unfold fail at h
+  simp only at h
+  split at h
+  · simp at h
+  · simp only [Result.table.injEq] at h; subst h; simp
+
+theorem mergeLmtp_length (per : List Cls) (es : List Nat) : (mergeLmtp per es).length = per.length := by
+  fun_induction mergeLmtp per es <;> simp_all
+
+theorem checkReplies_lengths (mail data : Nat) (rcpts : List Nat) :
+    (∀ l, checkReplies mail rcpts data = .inl (.table l) → l.length = rcpts.length) ∧
+    (∀ per, checkReplies mail rcpts data = .inr per → per.length = rcpts.length) := by
+  unfold checkReplies
+  constructor
+  · intro l h
+    split at h
+    · simp only [Sum.inl.injEq] at h; simpa [ownClasses] using fail_length _ _ l h
+    · split at h
+      · simp only [Sum.inl.injEq] at h; simpa [ownClasses] using fail_length _ _ l h
+      · split at h
+        · simp only [Sum.inl.injEq] at h; simpa [ownClasses] using fail_length _ _ l h
+        · simp at h
+  · intro per h
+    split at h
+    · simp at h
+    · split at h
+      · simp at h
+      · split at h
+        · simp at h
+        · simp only [Sum.inr.injEq] at h; subst h; simp
+
+/-- **Every recipient gets an answer** (the relay contract the queue relies on): when an SMTP / LMTP attempt returns per-recipient
+    results at all, it returns one for each recipient of the envelope, in order — whatever the downstream server did. -/
+theorem attempt_answers_everyone (cfg : Cfg) (s : Script) (l : List Cls) (h : attempt cfg s = .table l) :
+    l.length = s.rcpts.length := by
+  unfold attempt at h
+  split at h
+  · simp at h
+  · simp at h
+  · split at h
+    · rename_i e he
+      obtain ⟨c, rfl, _⟩ := handshake_not_ok he
+      simp at h
+    · unfold deliver at h
+      split at h
+      · simp at h
+      · split at h
+        · simp at h
+        · rename_i mail hm
+          split at h
+          · simp at h
+          · split at h
+            · simp at h
+            · rename_i rc hrc
+              have hlen : rc.length = s.rcpts.length := by
+                have := readCodes_some hrc; rw [this]; simp
+              split at h
+              · simp at h
+              · rename_i data hd
+                have hcl := checkReplies_lengths mail data rc
+                split at h
+                · rename_i r hr
+                  subst h
+                  rw [← hlen]; exact hcl.1 l hr
+                · rename_i per hper
+                  have hpl := hcl.2 per hper
+                  split at h
+                  · simp only at h
+                    split at h
+                    · simp at h
+                    · simp only [Result.table.injEq] at h; subst h
+                      rw [mergeLmtp_length, hpl, hlen]
+                  · split at h
+                    · simp at h
+                    · split at h
+                      · have := fail_length _ _ l h
+                        simpa [ownClasses, hlen] using this
+                      · simp only [Result.table.injEq] at h; subst h; rw [hpl, hlen]
+
+theorem pipe_answers_everyone (per : Bool) (outs : List PipeOut) (l : List Cls) (h : pipeAttempt per outs = .table l) :
+    l.length = outs.length := by
+  unfold pipeAttempt at h
+  split at h
+  · simp only [Result.table.injEq] at h; subst h; simp
+  · split at h
+    · simp only [Result.table.injEq] at h; subst h; simp
+    · simp at h
+    · rename_i hn
+      simp only [Result.table.injEq] at h; subst h
+      cases outs <;> simp_all
+
+theorem http_answers_everyone (n : Nat) (o : HttpOut) (l : List Cls) (h : httpAttempt n o = .table l) : l.length = n := by
+  unfold httpAttempt at h
+  split at h
+  · simp at h
+  · simp at h
+  · split at h
+    · simp only [Result.table.injEq] at h; subst h; simp
+    · split at h <;> (try split at h) <;> simp at h
+
+
+/-! ## The result model and the command model (Model/RelaySession.lean) agree -/
+
+/-- The answers the command model reads, for a script of the result model (SMTP): MAIL, each RCPT, DATA, the message data. -/
+def toAns : Out → RelaySession.Ans
+  | .code c => .code c
+  | _ => .broken
+
+def answers (s : Script) : List RelaySession.Ans :=
+  toAns s.mail :: (s.rcpts.map toAns ++ [toAns s.data, toAns s.eod])
+
+theorem readN_codes (cs : List Nat) (rest : List RelaySession.Ans) :
+    RelaySession.readN cs.length (cs.map RelaySession.Ans.code ++ rest) = some (cs, rest) := by
+  induction cs with
+  | nil => simp [RelaySession.readN]
+  | cons c cs ih => simp [RelaySession.readN, ih]
+
+theorem isError_agree (c : Nat) : RelaySession.isError c = isError c := rfl
+
+theorem ok_reads_rcpts (cfg : Cfg) (s : Script) (i : Nat) (hi : clsOf (deliver cfg s) i = some .ok) :
+    ∃ rc, readCodes s.rcpts = some rc := by
+  cases h : readCodes s.rcpts with
+  | some rc => exact ⟨rc, rfl⟩
+  | none =>
+    exfalso
+    simp only [deliver, h] at hi
+    repeat' split at hi
+    all_goals (simp [clsOf] at hi)
+    all_goals (exact absurd hi (factory_not_ok _))
+
+/-- **The two views of one delivery agree** (SMTP): whenever the result model reports some recipient delivered, the command model —
+    fed the same answers — has written the message data after MAIL, the RCPTs and DATA were answered, and has seen it accepted. -/
+theorem delivered_means_content_was_sent (cfg : Cfg) (hl : cfg.lmtp = false) (s : Script) (i : Nat)
+    (hi : clsOf (deliver cfg s) i = some .ok) :
+    (RelaySession.deliver false s.pipelining s.rcpts.length (answers s)).delivered = true ∧
+    RelaySession.Cmd.body ∈ (RelaySession.deliver false s.pipelining s.rcpts.length (answers s)).cmds := by
+  obtain ⟨⟨ci, hci, hcie⟩, ⟨ce, hce, hcee⟩, ⟨cd, hcd, hcde⟩, ⟨cm, hcm, hcme⟩⟩ := smtp_delivered_only_if_accepted cfg hl s i hi
+  obtain ⟨rc, hrc⟩ := ok_reads_rcpts cfg s i hi
+  have hout := readCodes_some hrc
+  have hlen : rc.length = s.rcpts.length := by rw [hout]; simp
+  have hans : answers s = RelaySession.Ans.code cm :: (rc.map RelaySession.Ans.code ++ [.code cd, .code ce]) := by
+    simp only [answers, hcm, hcd, hce, toAns, hout, List.map_map]
+    congr 2
+  have hmem : ci ∈ rc := by
+    have : (rc.map Out.code)[i]? = some (Out.code ci) := by rw [← hout]; exact hci
+    simp only [List.getElem?_map, Option.map_eq_some_iff, Out.code.injEq] at this
+    obtain ⟨a, ha, rfl⟩ := this
+    exact List.mem_of_getElem? ha
+  have hacc : ((rc.filter fun c => !RelaySession.isError c).length == 0) = false := by
+    have : ci ∈ rc.filter fun c => !RelaySession.isError c := by
+      simp [List.mem_filter, hmem, isError_agree, hcie]
+    cases hf : rc.filter (fun c => !RelaySession.isError c) with
+    | nil => rw [hf] at this; simp at this
+    | cons a b => simp
+  have hne : ¬ ∀ a ∈ rc, isError a = true := fun h => by have := h ci hmem; simp [hcie] at this
+  rw [hans, ← hlen]
+  cases hp : s.pipelining
+  · -- without PIPELINING
+    simp only [RelaySession.deliver, Bool.false_eq_true, if_false]
+    have r1 : RelaySession.readN 1 (RelaySession.Ans.code cm :: (rc.map RelaySession.Ans.code ++ [.code cd, .code ce]))
+        = some ([cm], rc.map RelaySession.Ans.code ++ [.code cd, .code ce]) := readN_codes [cm] _
+    simp only [r1, List.headD_cons, isError_agree, hcme, Bool.false_eq_true, if_false]
+    have r2 := readN_codes rc [RelaySession.Ans.code cd, .code ce]
+    simp only [r2]
+    have r3 : RelaySession.readN 1 [RelaySession.Ans.code cd, .code ce] = some ([cd], [.code ce]) := readN_codes [cd] _
+    simp only [r3, List.headD_cons]
+    simp only [RelaySession.afterEnvelope, isError_agree, hcme, hcde, hacc, Bool.false_eq_true, Bool.or_false, if_false]
+    have r4 : RelaySession.readN 1 [RelaySession.Ans.code ce] = some ([ce], []) := readN_codes [ce] _
+    simp [r4, isError_agree, hcee, hne]
+  · -- with PIPELINING
+    simp only [RelaySession.deliver, if_true]
+    have r1 : RelaySession.readN (rc.length + 2) (RelaySession.Ans.code cm :: (rc.map RelaySession.Ans.code ++ [.code cd, .code ce]))
+        = some (cm :: (rc ++ [cd]), [.code ce]) := by
+      have := readN_codes (cm :: (rc ++ [cd])) [RelaySession.Ans.code ce]
+      simpa [Nat.add_comm, Nat.add_left_comm, Nat.add_assoc] using this
+    simp only [r1]
+    have t1 : (rc ++ [cd]).take rc.length = rc := by simp
+    have t2 : (rc ++ [cd]).getD rc.length 0 = cd := by simp [List.getD]
+    simp only [t1, t2]
+    simp only [RelaySession.afterEnvelope, isError_agree, hcme, hcde, hacc, Bool.false_eq_true, Bool.or_false, if_false]
+    have r4 : RelaySession.readN 1 [RelaySession.Ans.code ce] = some ([ce], []) := readN_codes [ce] _
+    simp [r4, isError_agree, hcee, hne]
 
 end Slimta.C11
